@@ -368,6 +368,9 @@ func (c *Ctx) Step(step string) string {
 		if a["badkey"] != "" {
 			key = "abcd"
 		}
+		if a["wrongkey"] != "" { // well-formed, but not the key behind the taker pubkey
+			key = hex.EncodeToString(detKey("not-the-taker-key").Serialize())
+		}
 		from := peerNode
 		if a["from"] == "third" {
 			from = thirdNode
